@@ -127,6 +127,24 @@ func genC02(t *rapid.T) c02Case {
 	} else {
 		docs = []map[string]any{target}
 	}
+	if rapid.IntRange(0, 2).Draw(t, "laterpools") == 0 {
+		// a later file adds several address pools (and sysctls, labels, aliases ...) to what an earlier one declares
+		cs.Feature = append(cs.Feature, "collections-extended-by-a-later-file")
+		nets, _ := docs[0]["networks"].(map[string]any)
+		if nets == nil {
+			nets = map[string]any{}
+			docs[0]["networks"] = nets
+		}
+		nets["poolnet"] = map[string]any{"ipam": map[string]any{"config": []any{map[string]any{"subnet": "10.9.0.0/24"}}}, "labels": map[string]any{"l0": "v"}, "driver_opts": map[string]any{"o0": "v"}}
+		var pools []any
+		labels, opts := map[string]any{}, map[string]any{}
+		for k := 1; k <= rapid.IntRange(2, 6).Draw(t, "npools"); k++ {
+			pools = append(pools, map[string]any{"subnet": fmt.Sprintf("10.9.%d.0/24", (k*7)%11), "gateway": fmt.Sprintf("10.9.%d.1", (k*7)%11)})
+			labels[fmt.Sprintf("l%d", (k*5)%7)] = "later"
+			opts[fmt.Sprintf("o%d", (k*3)%7)] = "later"
+		}
+		docs = append(docs, map[string]any{"networks": map[string]any{"poolnet": map[string]any{"ipam": map[string]any{"config": pools}, "labels": labels, "driver_opts": opts}}})
+	}
 	if rapid.IntRange(0, 2).Draw(t, "include") == 0 {
 		cs.Feature = append(cs.Feature, "include")
 		docs[0]["include"] = []any{"inc/compose.yaml"}
